@@ -310,10 +310,15 @@ def gen_backend(rng, tier):
         return dict(dur=d_, amp=rng.choice([0.5, 1.0, 2.0, 3.0, 6.0]), det=rng.choice([-2.0, -1.0, 0.0, 1.0, 4.0]),
                     phase=rng.choice([0.0, 0.5, 1.0, 3.0]))
 
+    # a device with a modulation bandwidth, emulated with the modulated output:
+    # the emulated duration is then longer than Sequence.get_duration()
+    modulated = level == "ising" and rng.random() < 0.2
     if level != "all" and rng.random() < 0.6:
         # two different pulses: H(t) is not the same at all evaluation times
         d1 = max(4, (dur * rng.choice([1, 2, 3])) // 4)
-        pulses = [one_pulse(d1), one_pulse(dur - d1)]
+        if modulated:
+            d1 = max(16, 4 * (d1 // 4))
+        pulses = [one_pulse(d1), one_pulse(dur - d1)] if dur - d1 >= 16 or not modulated else [one_pulse(dur)]
     else:
         pulses = [one_pulse(dur)]
     r = rng.random()
@@ -378,7 +383,7 @@ def gen_backend(rng, tier):
     return dict(
         kind="backend", level=level, n_atoms=n_atoms, spacing=rng.choice([5.0, 6.0, 8.0]), pulses=pulses,
         raman=dict(amp=rng.choice([1.0, 2.0]), det=rng.choice([0.0, 1.0])) if level == "all" else None,
-        dflt=dflt, rate=rate, obs=obs, noise=noise, init=init, shots=rng.choice([300, 1000]),
+        dflt=dflt, rate=rate, modulated=modulated, obs=obs, noise=noise, init=init, shots=rng.choice([300, 1000]),
         seed=rng.randrange(2 ** 31),
     )
 
